@@ -1772,3 +1772,73 @@ def rule_cursor(cx, tier):
     r.floor("iterator types in koto_runtime", n_types, 30)
     r.floor("cursor/bound pairs that can overshoot", n_over, 2)
     return r
+
+
+# ---------------------------------------------------------------------------------------------
+# R-STALE-INDEX (C06): no panicking index into a shared container inside a loop that runs user code
+
+REENTRANT = ("call_function", "call_instance_function", "run_binary_op", "run_unary_op", "call_and_run_function",
+             "make_iterator", "run_read_op", "run_write_op")
+CONTAINER_GUARDS = ("KList::data", "KList::data_mut", "KMap::data", "KMap::data_mut")
+
+
+def rule_stale_index(cx, tier):
+    r = RuleResult("R-STALE-INDEX", "inside a loop that calls back into user code (a predicate, a key function, an overloaded "
+                                    "operator) a shared list or map is never indexed with a panicking `[]`: the callback can "
+                                    "shrink the container, so an index computed from an earlier len() must be re-validated "
+                                    "(`get(i)`) after every callback")
+    F = cx.F
+    n_loops = 0
+    n_idx = 0
+    for fn in F.fns.values():
+        if fn.derived or fn.crate.uname != "koto_runtime":
+            continue
+        calls = list(fn.calls())
+        re_bbs = {c.bb for c in calls if (c.short or c.pretty or "").rsplit("::", 1)[-1] in REENTRANT}
+        if not re_bbs:
+            continue
+        cfg = cx.cfg(fn)
+        loops = [cfg.natural_loop(t, h) for (t, h) in cfg.back_edges()]
+        loops = [L for L in loops if re_bbs & L]
+        if not loops:
+            continue
+        n_loops += len(loops)
+        du = cx.du(fn)
+        label = cx.label(fn)
+        seen = set()
+        for c in calls:
+            if not (c.pretty or "").endswith(("::index", "::index_mut")) or len(c.args) < 2:
+                continue
+            if not any(c.bb in L for L in loops) or c.bb in seen:
+                continue
+            # receiver: a guard obtained from data()/data_mut() of a list / map handle
+            l = op_base(c.args[0])
+            rr = du.root(l, through_calls=("Deref::deref", "DerefMut::deref_mut", "Borrow::borrow", "AsRef::as_ref",
+                                           "Vec::as_slice", "Vec::as_mut_slice")) if l is not None else None
+            if rr is None:
+                continue
+            if rr[0] == "field":
+                rr = rr[1]
+            if rr[0] != "call" or not any(rr[1].short.endswith(g) for g in CONTAINER_GUARDS):
+                continue
+            seen.add(c.bb)
+            n_idx += 1
+            r.instances += 1
+            r.nontrivial += 1
+            guard_call = rr[1]
+            # a container created in this function cannot be reached by the callback
+            h = op_base(guard_call.args[0]) if guard_call.args else None
+            hr = du.root(h, through_calls=("Clone::clone", "Deref::deref")) if h is not None else None
+            fresh = hr is not None and hr[0] == "call" and hr[1].short.rsplit("::", 1)[-1] in (
+                "new", "with_capacity", "with_data", "from_slice", "default", "with_contents")
+            r.sample({"fn": label, "line": c.line, "container": guard_call.short.rsplit("::", 2)[-2:],
+                      "fresh_container": fresh})
+            if fresh:
+                continue
+            r.add(Finding("R-STALE-INDEX", label, guard_call.short.rsplit("::", 1)[-1] + "[]",
+                          f"`{guard_call.short.rsplit('::', 2)[-2]}::{guard_call.short.rsplit('::', 1)[-1]}()[i]` inside a "
+                          f"loop that runs user code: a callback that shrinks the container makes the next index panic "
+                          f"('index out of bounds')", fn.file, c.line))
+    r.analysed = {"loops_with_reentrant_calls": n_loops, "panicking_index_sites_in_them": n_idx}
+    r.floor("loops with re-entrant calls in koto_runtime", n_loops, 20)
+    return r
